@@ -165,8 +165,8 @@ Record inv (s : st) : Prop := {
 
 Lemma inv_init : inv init_st.
 Proof.
-  constructor; cbn; intros; try contradiction; try discriminate; try constructor; auto.
-  Show.
+  constructor; cbn; intros; try contradiction; try discriminate;
+    try (match goal with H : started_or_done _ |- _ => destruct H; discriminate end); try constructor; auto.
 Qed.
 
 Lemma startable_states : forall x, startable x = true <-> a_state x = INITED \/ a_state x = STARTING.
@@ -180,3 +180,474 @@ Proof.
   intros s I a b H. destruct (startable (acts s b)) eqn:E; [reflexivity|].
   rewrite (i_sd s I b E) in H. contradiction.
 Qed.
+
+(** a single activity b, not yet started, is replaced by x' which differs only by state / assignment / dates and is
+    either still not started, or has just been do_start()ed with no dependency left *)
+Lemma upd_inv_startable : forall s s' b x',
+  inv s -> (forall i, acts s' i = upd (acts s) b x' i) -> nacts s' = nacts s -> now s' = now s ->
+  (b < nacts s)%nat -> startable (acts s b) = true ->
+  a_succs x' = a_succs (acts s b) -> a_gpreds x' = a_gpreds (acts s b) -> a_deps x' = a_deps (acts s b) ->
+  a_tfinish x' = a_tfinish (acts s b) ->
+  (startable x' = true \/
+   (a_state x' = STARTED /\ a_deps (acts s b) = [] /\ a_assigned x' = true /\ a_tstart x' = Some (now s))) ->
+  inv s'.
+Proof.
+  intros s s' b x' I Ha Hn Hnow Hb Hst Hsu Hgp Hdp Htf Hx.
+  assert (Hnf : a_state x' <> FINISHED).
+  { destruct Hx as [Hx|[Hx _]]; [apply startable_states in Hx; destruct Hx as [Hx|Hx]; rewrite Hx; discriminate|rewrite Hx; discriminate]. }
+  assert (Hfin : forall p, a_state (acts s p) = FINISHED -> p <> b).
+  { intros p Hp ->. apply startable_states in Hst. destruct Hst as [Hst|Hst]; rewrite Hst in Hp; discriminate. }
+  assert (Hgp' : forall i, a_gpreds (acts s' i) = a_gpreds (acts s i)).
+  { intros i. rewrite Ha. destruct (Nat.eq_dec i b) as [->|Hne]; [rewrite upd_eq; exact Hgp|rewrite upd_neq by exact Hne; reflexivity]. }
+  assert (Hdp' : forall i, a_deps (acts s' i) = a_deps (acts s i)).
+  { intros i. rewrite Ha. destruct (Nat.eq_dec i b) as [->|Hne]; [rewrite upd_eq; exact Hdp|rewrite upd_neq by exact Hne; reflexivity]. }
+  assert (Hsu' : forall i, a_succs (acts s' i) = a_succs (acts s i)).
+  { intros i. rewrite Ha. destruct (Nat.eq_dec i b) as [->|Hne]; [rewrite upd_eq; exact Hsu|rewrite upd_neq by exact Hne; reflexivity]. }
+  assert (Hkeep : forall p, a_state (acts s p) = FINISHED -> acts s' p = acts s p).
+  { intros p Hp. rewrite Ha. apply upd_neq. apply Hfin; exact Hp. }
+  constructor.
+  - intros p Hp. rewrite Ha in Hp |- *. destruct (Nat.eq_dec p b) as [->|Hne].
+    + rewrite upd_eq in Hp. contradiction.
+    + rewrite upd_neq in Hp |- * by exact Hne. rewrite Hnow. apply (i_fin s I); exact Hp.
+  - intros b0 p Hp. rewrite Hgp' in Hp. rewrite Hdp'. destruct (i_A s I b0 p Hp) as [H|H]; [left; exact H|right].
+    rewrite (Hkeep p H). exact H.
+  - intros b0 Hsod. unfold guard_ok. rewrite Hgp', Hnow.
+    assert (Hps : forall p, a_state (acts s p) = FINISHED -> forall ts, (exists tf, a_tfinish (acts s p) = Some tf /\ tf <= ts) ->
+                  a_state (acts s' p) = FINISHED /\ exists tf, a_tfinish (acts s' p) = Some tf /\ tf <= ts).
+    { intros p Hp ts Htf'. rewrite (Hkeep p Hp). split; assumption. }
+    destruct (Nat.eq_dec b0 b) as [->|Hne].
+    + rewrite Ha, upd_eq in Hsod |- *.
+      destruct Hx as [Hx|[Hx1 [Hx2 [Hx3 Hx4]]]].
+      { apply sod_not_startable in Hsod. congruence. }
+      split; [exact Hx3|]. exists (now s). split; [exact Hx4|]. split; [lia|].
+      intros p Hp. destruct (i_A s I b p Hp) as [H|H]; [rewrite Hx2 in H; contradiction|].
+      apply Hps; [exact H|]. destruct (i_fin s I p H) as [t [Ht1 Ht2]]. exists t; auto.
+    + rewrite Ha, upd_neq in Hsod |- * by exact Hne.
+      destruct (i_guard s I b0 Hsod) as [G1 [ts [G2 [G3 G4]]]].
+      split; [exact G1|]. exists ts. split; [exact G2|]. split; [exact G3|].
+      intros p Hp. destruct (G4 p Hp) as [Q1 Q2]. apply Hps; assumption.
+  - intros b0 Hs. rewrite Hdp'. destruct (Nat.eq_dec b0 b) as [->|Hne].
+    + rewrite Ha, upd_eq in Hs. destruct Hx as [Hx|[_ [Hx _]]]; [congruence|exact Hx].
+    + rewrite Ha, upd_neq in Hs by exact Hne. apply (i_sd s I); exact Hs.
+  - intros a b0 H. rewrite Hsu' in H. rewrite Hdp'. apply (i_E2 s I); exact H.
+  - intros a. rewrite Hsu'. apply (i_nd s I).
+  - intros b0 p H. rewrite Hgp' in H. rewrite Hn. apply (i_bnd s I b0); exact H.
+  - intros i Hi. rewrite Hn in Hi. rewrite Ha, upd_neq by lia. apply (i_fresh s I); exact Hi.
+Qed.
+
+Lemma put_started_inv : forall s b x,
+  inv s -> (b < nacts s)%nat -> startable (acts s b) = true -> startable x = true ->
+  a_succs x = a_succs (acts s b) -> a_gpreds x = a_gpreds (acts s b) -> a_deps x = a_deps (acts s b) ->
+  a_tfinish x = a_tfinish (acts s b) ->
+  inv (put_started s b (start_act (now s) x)).
+Proof.
+  intros s b x I Hb Hst Hx Hsu Hgp Hdp Htf.
+  eapply (upd_inv_startable s _ b (start_act (now s) x) I); try reflexivity; try assumption;
+    destruct (start_act_cases (now s) x) as [[E _]|[E [E1 E2]]]; rewrite E; cbn; try assumption.
+  - left; reflexivity.
+  - right. repeat split; try assumption. rewrite <- Hdp; exact E1.
+Qed.
+
+Lemma with_act_inv : forall s b x,
+  inv s -> (b < nacts s)%nat -> startable (acts s b) = true -> startable x = true ->
+  a_succs x = a_succs (acts s b) -> a_gpreds x = a_gpreds (acts s b) -> a_deps x = a_deps (acts s b) ->
+  a_tfinish x = a_tfinish (acts s b) ->
+  inv (with_act s b x).
+Proof.
+  intros s b x I Hb Hst Hx Hsu Hgp Hdp Htf.
+  eapply (upd_inv_startable s _ b x I); try reflexivity; try assumption. left; exact Hx.
+Qed.
+
+Lemma log_op_inv : forall s o, inv s -> inv (log_op s o).
+Proof. intros s o I. destruct I. constructor; cbn; assumption. Qed.
+
+Lemma create_inv : forall s k dur, inv s -> inv (mkSt (upd (acts s) (nacts s) (new_act k dur)) (S (nacts s)) (now s) (trace s)).
+Proof.
+  intros s k dur I. set (n := nacts s).
+  assert (Fr : fresh (acts s n)) by (apply (i_fresh s I); lia).
+  assert (Hlt : forall b p, In p (a_gpreds (acts s b)) -> p <> n).
+  { intros b p H. pose proof (i_bnd s I b p H). lia. }
+  assert (Hfn : forall p, a_state (acts s p) = FINISHED -> p <> n).
+  { intros p Hp ->. destruct Fr as [F _]. fold n in Hp. congruence. }
+  constructor; cbn [acts nacts now].
+  - intros p Hp. destruct (Nat.eq_dec p n) as [->|Hne]; [rewrite upd_eq in Hp; discriminate|].
+    rewrite upd_neq in Hp |- * by exact Hne. apply (i_fin s I); exact Hp.
+  - intros b p Hp. destruct (Nat.eq_dec b n) as [->|Hne]; [rewrite upd_eq in Hp; contradiction|].
+    rewrite upd_neq in Hp |- * by exact Hne. rewrite (upd_neq _ _ _ p) by (eapply Hlt; eauto). apply (i_A s I); exact Hp.
+  - intros b Hs. unfold guard_ok; cbn [acts now]. destruct (Nat.eq_dec b n) as [->|Hne].
+    + rewrite upd_eq in Hs. destruct Hs; discriminate.
+    + rewrite upd_neq in Hs |- * by exact Hne. destruct (i_guard s I b Hs) as [G1 [ts [G2 [G3 G4]]]].
+      split; [exact G1|]. exists ts. repeat split; try assumption; rewrite (upd_neq _ _ _ p) by (eapply Hlt; eauto); apply G4; assumption.
+  - intros b Hs. destruct (Nat.eq_dec b n) as [->|Hne]; [rewrite upd_eq; reflexivity|].
+    rewrite upd_neq in Hs |- * by exact Hne. apply (i_sd s I); exact Hs.
+  - intros a b H. destruct (Nat.eq_dec a n) as [->|Hne]; [rewrite upd_eq in H; contradiction|].
+    rewrite upd_neq in H by exact Hne. pose proof (i_E2 s I a b H) as H2.
+    destruct (Nat.eq_dec b n) as [->|Hnb]; [destruct Fr as [_ [F _]]; fold n in H2; rewrite F in H2; contradiction|].
+    rewrite upd_neq by exact Hnb. exact H2.
+  - intros a. destruct (Nat.eq_dec a n) as [->|Hne]; [rewrite upd_eq; constructor|rewrite upd_neq by exact Hne; apply (i_nd s I)].
+  - intros b p H. destruct (Nat.eq_dec b n) as [->|Hne]; [rewrite upd_eq in H; contradiction|].
+    rewrite upd_neq in H by exact Hne. pose proof (i_bnd s I b p H). fold n in H0. lia.
+  - intros i Hi. rewrite upd_neq by (fold n in Hi; lia). apply (i_fresh s I). fold n. lia.
+Qed.
+
+(** add_successor / remove_successor: a's successor list and b's dependency sets change, nothing else *)
+Lemma edge_inv : forall s a b sa db gb,
+  inv s -> a <> b -> (a < nacts s)%nat -> (b < nacts s)%nat ->
+  NoDup sa ->
+  (forall b0, In b0 sa -> b0 <> b -> In b0 (a_succs (acts s a))) ->
+  (In b sa -> In a db) ->
+  (forall p, In p db -> p <> a -> In p (a_deps (acts s b))) ->
+  (forall p, In p (a_deps (acts s b)) -> p <> a -> In p db) ->
+  (forall p, In p gb -> p = a \/ In p (a_gpreds (acts s b))) ->
+  (In a gb -> In a db) ->
+  (In a gb -> startable (acts s b) = true) ->
+  (In a db -> startable (acts s b) = true) ->
+  inv (with_act (with_act s a (set_succs (acts s a) sa)) b
+         (set_gpreds (set_deps (acts s b) db) gb)).
+Proof.
+  intros s a b sa db gb I Hab Ha Hb Hnd Hsa Hbd Hd1 Hd2 Hg1 Hgd Hgst Hdst.
+  set (s' := with_act _ _ _).
+  assert (Hst : forall i, a_state (acts s' i) = a_state (acts s i) /\ a_tfinish (acts s' i) = a_tfinish (acts s i) /\
+                          a_tstart (acts s' i) = a_tstart (acts s i) /\ a_assigned (acts s' i) = a_assigned (acts s i)).
+  { intros i. unfold s', with_act; cbn [acts]. destruct (Nat.eq_dec i b) as [->|Hib].
+    - rewrite upd_eq. cbn. auto.
+    - rewrite upd_neq by exact Hib. destruct (Nat.eq_dec i a) as [->|Hia]; [rewrite upd_eq; cbn; auto|rewrite upd_neq by exact Hia; auto]. }
+  assert (Hb' : acts s' b = set_gpreds (set_deps (acts s b) db) gb).
+  { unfold s', with_act; cbn [acts]. rewrite upd_eq. reflexivity. }
+  assert (Ha' : acts s' a = set_succs (acts s a) sa).
+  { unfold s', with_act; cbn [acts]. rewrite upd_neq by exact Hab. rewrite upd_eq. reflexivity. }
+  assert (Ho : forall i, i <> a -> i <> b -> acts s' i = acts s i).
+  { intros i H1 H2. unfold s', with_act; cbn [acts]. rewrite !upd_neq by assumption. reflexivity. }
+  assert (Hdeps : forall i, i <> b -> a_deps (acts s' i) = a_deps (acts s i)).
+  { intros i H. destruct (Nat.eq_dec i a) as [->|Hia]; [rewrite Ha'; reflexivity|rewrite Ho by assumption; reflexivity]. }
+  assert (Hgps : forall i, i <> b -> a_gpreds (acts s' i) = a_gpreds (acts s i)).
+  { intros i H. destruct (Nat.eq_dec i a) as [->|Hia]; [rewrite Ha'; reflexivity|rewrite Ho by assumption; reflexivity]. }
+  assert (Hsus : forall i, i <> a -> a_succs (acts s' i) = a_succs (acts s i)).
+  { intros i H. destruct (Nat.eq_dec i b) as [->|Hib]; [rewrite Hb'; reflexivity|rewrite Ho by assumption; reflexivity]. }
+  assert (Hstb : forall i, startable (acts s' i) = startable (acts s i)).
+  { intros i. unfold startable. destruct (Hst i) as [E _]. rewrite E. reflexivity. }
+  constructor.
+  - intros p Hp. destruct (Hst p) as [E1 [E2 _]]. rewrite E1 in Hp. rewrite E2. apply (i_fin s I); exact Hp.
+  - intros b0 p Hp. destruct (Hst p) as [E1 _]. rewrite E1.
+    destruct (Nat.eq_dec b0 b) as [->|Hne].
+    + rewrite Hb' in Hp |- *. cbn in Hp |- *. destruct (Nat.eq_dec p a) as [->|Hpa]; [left; apply Hgd; exact Hp|].
+      destruct (Hg1 p Hp) as [H|H]; [contradiction|].
+      destruct (i_A s I b p H) as [H2|H2]; [left; apply Hd2; assumption|right; exact H2].
+    + rewrite Hgps in Hp by exact Hne. rewrite Hdeps by exact Hne. apply (i_A s I); exact Hp.
+  - intros b0 Hs. unfold started_or_done in Hs. destruct (Hst b0) as [E1 [E2 [E3 E4]]]. rewrite E1 in Hs.
+    destruct (i_guard s I b0 Hs) as [G1 [ts [G2 [G3 G4]]]]. unfold guard_ok. rewrite E4, E3.
+    split; [exact G1|]. exists ts. split; [exact G2|]. split; [exact G3|].
+    intros p Hp. destruct (Hst p) as [F1 [F2 _]]. rewrite F1, F2. apply G4.
+    destruct (Nat.eq_dec b0 b) as [->|Hne].
+    + rewrite Hb' in Hp. cbn in Hp. pose proof (sod_not_startable _ Hs) as Hns.
+      destruct (Hg1 p Hp) as [->|H]; [|exact H]. rewrite (Hgst Hp) in Hns. discriminate.
+    + rewrite Hgps in Hp by exact Hne. exact Hp.
+  - intros b0 Hs. rewrite Hstb in Hs. destruct (Nat.eq_dec b0 b) as [->|Hne].
+    + rewrite Hb'. cbn. destruct db as [|d r]; [reflexivity|]. exfalso.
+      destruct (Nat.eq_dec d a) as [->|Hda].
+      * rewrite Hdst in Hs by (left; reflexivity). discriminate.
+      * pose proof (Hd1 d (or_introl eq_refl) Hda) as H. rewrite (i_sd s I b Hs) in H. contradiction.
+    + rewrite Hdeps by exact Hne. apply (i_sd s I); exact Hs.
+  - intros a0 b0 H. destruct (Nat.eq_dec a0 a) as [->|Hne].
+    + rewrite Ha' in H. cbn in H. destruct (Nat.eq_dec b0 b) as [->|Hnb].
+      * rewrite Hb'. cbn. apply Hbd; exact H.
+      * rewrite Hdeps by exact Hnb. apply (i_E2 s I). apply Hsa; assumption.
+    + rewrite Hsus in H by exact Hne. pose proof (i_E2 s I a0 b0 H) as H2.
+      destruct (Nat.eq_dec b0 b) as [->|Hnb]; [rewrite Hb'; cbn; apply Hd2; assumption|rewrite Hdeps by exact Hnb; exact H2].
+  - intros a0. destruct (Nat.eq_dec a0 a) as [->|Hne]; [rewrite Ha'; exact Hnd|rewrite Hsus by exact Hne; apply (i_nd s I)].
+  - intros b0 p H. change (nacts s') with (nacts s). destruct (Nat.eq_dec b0 b) as [->|Hne].
+    + rewrite Hb' in H. cbn in H. destruct (Hg1 p H) as [->|H1]; [exact Ha|apply (i_bnd s I b); exact H1].
+    + rewrite Hgps in H by exact Hne. apply (i_bnd s I b0); exact H.
+  - intros i Hi. change (nacts s') with (nacts s) in Hi. rewrite Ho by lia. apply (i_fresh s I); exact Hi.
+Qed.
+
+(** * 3. complete(): pointwise characterisation of release_dependencies *)
+Lemma start_acts : forall s b i, acts (start s b) i = upd (acts s) b (start_act (now s) (acts s b)) i.
+Proof. reflexivity. Qed.
+
+Lemma rel_act_eq : forall a t x,
+  rel_act a t x = (if is_nil (set_del a (a_deps x)) then start_act t (set_deps x (set_del a (a_deps x)))
+                   else set_deps x (set_del a (a_deps x))).
+Proof. reflexivity. Qed.
+
+Lemma relstep_facts : forall a s b,
+  now (relstep a s b) = now s /\ nacts (relstep a s b) = nacts s /\
+  forall i, acts (relstep a s b) i = upd (acts s) b (rel_act a (now s) (acts s b)) i.
+Proof.
+  intros a s b. unfold relstep. rewrite rel_act_eq. cbn [a_deps set_deps].
+  destruct (is_nil (set_del a (a_deps (acts s b)))) eqn:E.
+  - split; [reflexivity|]. split; [reflexivity|]. intros i. rewrite start_acts. cbn [with_act acts now].
+    unfold upd. rewrite Nat.eqb_refl. destruct (Nat.eqb i b) eqn:Ei; reflexivity.
+  - split; [reflexivity|]. split; [reflexivity|]. reflexivity.
+Qed.
+
+Lemma release_facts : forall a l s, NoDup l ->
+  now (fold_left (relstep a) l s) = now s /\ nacts (fold_left (relstep a) l s) = nacts s /\
+  (forall i, In i l -> acts (fold_left (relstep a) l s) i = rel_act a (now s) (acts s i)) /\
+  (forall i, ~ In i l -> acts (fold_left (relstep a) l s) i = acts s i).
+Proof.
+  induction l as [|b r IH]; intros s Hnd; cbn [fold_left].
+  - repeat split; auto. intros i [].
+  - inv Hnd. destruct (relstep_facts a s b) as [R1 [R2 R3]].
+    destruct (IH (relstep a s b) H2) as [I1 [I2 [I3 I4]]].
+    split; [congruence|]. split; [congruence|]. split.
+    + intros i [->|Hi].
+      * rewrite I4 by exact H1. rewrite R3, upd_eq. reflexivity.
+      * rewrite I3 by exact Hi. rewrite R1, R3. rewrite upd_neq; [reflexivity|]. intros ->. contradiction.
+    + intros i Hi. rewrite I4 by (intros H; apply Hi; right; exact H). rewrite R3. apply upd_neq. intros ->. apply Hi. left; reflexivity.
+Qed.
+
+Lemma complete_facts : forall s a, NoDup (a_succs (acts s a)) -> ~ In a (a_succs (acts s a)) ->
+  now (complete s a) = now s /\ nacts (complete s a) = nacts s /\
+  acts (complete s a) a = set_succs (set_finished (acts s a) (now s)) [] /\
+  (forall i, i <> a -> In i (a_succs (acts s a)) -> acts (complete s a) i = rel_act a (now s) (acts s i)) /\
+  (forall i, i <> a -> ~ In i (a_succs (acts s a)) -> acts (complete s a) i = acts s i).
+Proof.
+  intros s a Hnd Hself. unfold complete.
+  set (s0 := mkSt (upd (acts s) a (set_finished (acts s a) (now s))) (nacts s) (now s) (EvFinish a (now s) :: trace s)).
+  assert (Hnd' : NoDup (rev (a_succs (acts s a)))) by (apply NoDup_rev; exact Hnd).
+  destruct (release_facts a (rev (a_succs (acts s a))) s0 Hnd') as [R1 [R2 [R3 R4]]].
+  cbn [now nacts acts]. split; [exact R1|]. split; [exact R2|]. split.
+  - rewrite upd_eq. rewrite R4 by (rewrite <- in_rev; exact Hself). unfold s0; cbn [acts]. rewrite upd_eq. reflexivity.
+  - split; intros i Hia Hi; rewrite upd_neq by exact Hia.
+    + rewrite R3 by (rewrite <- in_rev; exact Hi). unfold s0; cbn [acts now]. rewrite upd_neq by exact Hia. reflexivity.
+    + rewrite R4 by (rewrite <- in_rev; exact Hi). unfold s0; cbn [acts]. rewrite upd_neq by exact Hia. reflexivity.
+Qed.
+
+(** outcomes of one release step on a successor *)
+Lemma rel_act_cases : forall a t x,
+  let d := set_del a (a_deps x) in
+  (d <> [] /\ rel_act a t x = set_deps x d) \/
+  (d = [] /\ a_assigned x = false /\ rel_act a t x = set_state (set_deps x []) STARTING) \/
+  (d = [] /\ a_assigned x = true /\ rel_act a t x = set_started (set_state (set_deps x []) STARTING) t).
+Proof.
+  intros a t x d. rewrite rel_act_eq. fold d. destruct d as [|y r] eqn:Ed; cbn [is_nil].
+  - right. unfold start_act. cbn. destruct (a_assigned x); [right|left]; auto.
+  - left. split; [discriminate|reflexivity].
+Qed.
+
+Lemma set_now_inv : forall s t, inv s -> now s <= t -> inv (set_now s t).
+Proof.
+  intros s t I Ht. constructor; unfold guard_ok; cbn [set_now acts nacts now].
+  - intros p Hp. destruct (i_fin s I p Hp) as [x [H1 H2]]. exists x. split; [exact H1|lia].
+  - apply (i_A s I).
+  - intros b Hs. destruct (i_guard s I b Hs) as [G1 [ts [G2 [G3 G4]]]]. split; [exact G1|]. exists ts.
+    split; [exact G2|]. split; [lia|exact G4].
+  - apply (i_sd s I).
+  - apply (i_E2 s I).
+  - apply (i_nd s I).
+  - apply (i_bnd s I).
+  - apply (i_fresh s I).
+Qed.
+
+Lemma complete_inv : forall s a, inv s -> a_state (acts s a) = STARTED -> inv (complete s a).
+Proof.
+  intros s a I Hsa.
+  assert (Hda : a_deps (acts s a) = []) by (apply (i_sd s I); unfold startable; rewrite Hsa; reflexivity).
+  assert (Hself : ~ In a (a_succs (acts s a))).
+  { intros H. apply (i_E2 s I) in H. rewrite Hda in H. contradiction. }
+  destruct (complete_facts s a (i_nd s I a) Hself) as [C1 [C2 [C3 [C4 C5]]]].
+  set (s' := complete s a) in *.
+  assert (Hsuc : forall i, In i (a_succs (acts s a)) -> i <> a /\ startable (acts s i) = true /\ In a (a_deps (acts s i))).
+  { intros i Hi. pose proof (i_E2 s I a i Hi) as H. split; [intros ->; contradiction|]. split; [eapply deps_dg; eauto|exact H]. }
+  assert (Hcls : forall i, i = a \/ (i <> a /\ In i (a_succs (acts s a))) \/ (i <> a /\ ~ In i (a_succs (acts s a)))).
+  { intros i. destruct (Nat.eq_dec i a); [left; assumption|right].
+    destruct (in_dec Nat.eq_dec i (a_succs (acts s a))); [left|right]; auto. }
+  assert (Hgp : forall i, a_gpreds (acts s' i) = a_gpreds (acts s i)).
+  { intros i. destruct (Hcls i) as [->|[[H1 H2]|[H1 H2]]].
+    - rewrite C3. reflexivity.
+    - rewrite C4 by assumption. destruct (rel_act_cases a (now s) (acts s i)) as [[_ E]|[[_ [_ E]]|[_ [_ E]]]]; rewrite E; reflexivity.
+    - rewrite C5 by assumption. reflexivity. }
+  assert (Hkeep : forall p, a_state (acts s p) = FINISHED -> acts s' p = acts s p).
+  { intros p Hp. apply C5.
+    - intros ->. congruence.
+    - intros Hin. destruct (Hsuc p Hin) as [_ [H _]]. apply startable_states in H. destruct H as [H|H]; congruence. }
+  assert (Hfa : a_state (acts s' a) = FINISHED /\ a_tfinish (acts s' a) = Some (now s)) by (rewrite C3; split; reflexivity).
+  constructor.
+  - (* i_fin *) intros p Hp. rewrite C1. destruct (Hcls p) as [->|[[H1 H2]|[H1 H2]]].
+    + exists (now s). split; [apply Hfa|lia].
+    + exfalso. destruct (Hsuc p H2) as [_ [Hst _]]. apply startable_states in Hst. rewrite C4 in Hp by assumption.
+      destruct (rel_act_cases a (now s) (acts s p)) as [[_ E]|[[_ [_ E]]|[_ [_ E]]]]; rewrite E in Hp; cbn in Hp; try discriminate.
+      destruct Hst; congruence.
+    + rewrite C5 in Hp |- * by assumption. apply (i_fin s I); exact Hp.
+  - (* i_A *) intros b p Hp. rewrite Hgp in Hp. destruct (i_A s I b p Hp) as [H|H].
+    2:{ right. rewrite (Hkeep p H). exact H. }
+    destruct (Hcls b) as [->|[[H1 H2]|[H1 H2]]].
+    + rewrite Hda in H. contradiction.
+    + destruct (Nat.eq_dec p a) as [->|Hpa]; [right; apply Hfa|]. left. rewrite C4 by assumption.
+      assert (Hin : In p (set_del a (a_deps (acts s b)))) by (apply set_del_In; auto).
+      destruct (rel_act_cases a (now s) (acts s b)) as [[_ E]|[[E0 _]|[E0 _]]]; [rewrite E; exact Hin| |]; cbn zeta in E0; rewrite E0 in Hin; contradiction.
+    + left. rewrite C5 by assumption. exact H.
+  - (* i_guard *) intros b Hs. unfold guard_ok. rewrite Hgp, C1.
+    assert (Hps : forall p ts, a_state (acts s p) = FINISHED -> (exists tf, a_tfinish (acts s p) = Some tf /\ tf <= ts) ->
+                  a_state (acts s' p) = FINISHED /\ exists tf, a_tfinish (acts s' p) = Some tf /\ tf <= ts).
+    { intros p ts Hp Ht. rewrite (Hkeep p Hp). auto. }
+    destruct (Hcls b) as [->|[[H1 H2]|[H1 H2]]].
+    + destruct (i_guard s I a (or_introl Hsa)) as [G1 [ts [G2 [G3 G4]]]]. rewrite C3. cbn.
+      split; [exact G1|]. exists ts. repeat split; try assumption; destruct (G4 p H) as [Q1 Q2]; apply (Hps p ts Q1 Q2).
+    + destruct (Hsuc b H2) as [_ [Hst _]]. rewrite C4 in Hs |- * by assumption. unfold started_or_done in Hs.
+      destruct (rel_act_cases a (now s) (acts s b)) as [[_ E]|[[_ [_ E]]|[E0 [E1 E]]]]; rewrite E in Hs |- *; cbn in Hs |- *.
+      * apply startable_states in Hst. destruct Hs, Hst; congruence.
+      * destruct Hs; discriminate.
+      * split; [exact E1|]. exists (now s). split; [reflexivity|]. split; [lia|]. intros p Hp.
+        destruct (i_A s I b p Hp) as [H|H].
+        -- destruct (Nat.eq_dec p a) as [->|Hpa].
+           ++ split; [apply Hfa|]. exists (now s). split; [apply Hfa|lia].
+           ++ exfalso. assert (Hin : In p (set_del a (a_deps (acts s b)))) by (apply set_del_In; auto).
+              cbn zeta in E0. rewrite E0 in Hin. contradiction.
+        -- apply Hps; [exact H|]. destruct (i_fin s I p H) as [t [T1 T2]]. exists t; auto.
+    + rewrite C5 in Hs |- * by assumption. destruct (i_guard s I b Hs) as [G1 [ts [G2 [G3 G4]]]].
+      split; [exact G1|]. exists ts. repeat split; try assumption; destruct (G4 p H) as [Q1 Q2]; apply (Hps p ts Q1 Q2).
+  - (* i_sd *) intros b Hs. destruct (Hcls b) as [->|[[H1 H2]|[H1 H2]]].
+    + rewrite C3. cbn. exact Hda.
+    + destruct (Hsuc b H2) as [_ [Hst _]]. rewrite C4 in Hs |- * by assumption.
+      destruct (rel_act_cases a (now s) (acts s b)) as [[_ E]|[[_ [_ E]]|[E0 [E1 E]]]]; rewrite E in Hs |- *; cbn in Hs |- *;
+        try reflexivity; try discriminate.
+      unfold startable in Hs, Hst. cbn in Hs. congruence.
+    + rewrite C5 in Hs |- * by assumption. apply (i_sd s I); exact Hs.
+  - (* i_E2 *) intros a0 b0 H. destruct (Nat.eq_dec a0 a) as [->|Hne]; [rewrite C3 in H; contradiction|].
+    assert (Hsu0 : a_succs (acts s' a0) = a_succs (acts s a0)).
+    { destruct (Hcls a0) as [->|[[H1 H2]|[H1 H2]]]; [contradiction| |rewrite C5 by assumption; reflexivity].
+      rewrite C4 by assumption. destruct (rel_act_cases a (now s) (acts s a0)) as [[_ E]|[[_ [_ E]]|[_ [_ E]]]]; rewrite E; reflexivity. }
+    rewrite Hsu0 in H. pose proof (i_E2 s I a0 b0 H) as H2.
+    destruct (Hcls b0) as [->|[[H3 H4]|[H3 H4]]].
+    + rewrite Hda in H2. contradiction.
+    + rewrite C4 by assumption. assert (Hin : In a0 (set_del a (a_deps (acts s b0)))) by (apply set_del_In; auto).
+      destruct (rel_act_cases a (now s) (acts s b0)) as [[_ E]|[[E0 _]|[E0 _]]]; [rewrite E; exact Hin| |]; cbn zeta in E0; rewrite E0 in Hin; contradiction.
+    + rewrite C5 by assumption. exact H2.
+  - (* i_nd *) intros a0. destruct (Hcls a0) as [->|[[H1 H2]|[H1 H2]]].
+    + rewrite C3. constructor.
+    + rewrite C4 by assumption. destruct (rel_act_cases a (now s) (acts s a0)) as [[_ E]|[[_ [_ E]]|[_ [_ E]]]]; rewrite E; apply (i_nd s I).
+    + rewrite C5 by assumption. apply (i_nd s I).
+  - intros b p H. rewrite Hgp in H. rewrite C2. apply (i_bnd s I b); exact H.
+  - intros i Hi. rewrite C2 in Hi. destruct (i_fresh s I i Hi) as [F1 [F2 _]]. rewrite C5; [apply (i_fresh s I); exact Hi| |].
+    + intros ->. congruence.
+    + intros Hin. destruct (Hsuc i Hin) as [_ [_ H]]. rewrite F2 in H. contradiction.
+Qed.
+
+(** * 4. the event loop and the script operations preserve the invariant *)
+Lemma next_ev_spec : forall f ids a d, next_ev f ids = Some (a, d) -> In a ids /\ fin_date (f a) = Some d.
+Proof.
+  induction ids as [|i r IH]; cbn [next_ev]; intros a d H; [discriminate|].
+  destruct (fin_date (f i)) as [di|] eqn:Ei.
+  - destruct (next_ev f r) as [[j e]|] eqn:En.
+    + destruct (di <=? e); inv H; [split; [left; reflexivity|exact Ei]|].
+      destruct (IH a d eq_refl) as [H1 H2]. split; [right; exact H1|exact H2].
+    + inv H. split; [left; reflexivity|exact Ei].
+  - destruct (IH a d H) as [H1 H2]. split; [right; exact H1|exact H2].
+Qed.
+Lemma fin_date_started : forall x d, fin_date x = Some d -> a_state x = STARTED.
+Proof. intros x d; unfold fin_date. destruct (a_state x); try discriminate. reflexivity. Qed.
+
+Lemma release_now : forall a l s, now (fold_left (relstep a) l s) = now s /\ nacts (fold_left (relstep a) l s) = nacts s.
+Proof.
+  induction l as [|b r IH]; intros s; cbn [fold_left]; [split; reflexivity|].
+  destruct (relstep_facts a s b) as [R1 [R2 _]]. destruct (IH (relstep a s b)) as [I1 I2]. split; congruence.
+Qed.
+Lemma complete_now : forall s a, now (complete s a) = now s /\ nacts (complete s a) = nacts s.
+Proof. intros s a. unfold complete. cbn [now nacts]. match goal with |- now (fold_left _ ?l ?s0) = _ /\ _ => destruct (release_now a l s0) as [R1 R2] end. rewrite R1, R2. split; reflexivity. Qed.
+
+Lemma drain_le : forall fuel t s, now s <= t -> now (drain fuel (Some t) s) <= t.
+Proof.
+  induction fuel as [|f IH]; intros t s Hs; cbn [drain]; [exact Hs|].
+  destruct (next_ev (acts s) (seq 0 (nacts s))) as [[a d]|]; [|exact Hs].
+  destruct (within (Some t) d) eqn:Ew; [|exact Hs]. cbn in Ew. apply IH.
+  destruct (complete_now (set_now s (Z.max (now s) d)) a) as [C _]. rewrite C. cbn. lia.
+Qed.
+
+Lemma drain_inv : forall fuel lim s, inv s -> inv (drain fuel lim s) /\ now s <= now (drain fuel lim s) /\ nacts (drain fuel lim s) = nacts s.
+Proof.
+  induction fuel as [|f IH]; intros lim s I; cbn [drain]; [split; [exact I|split; [lia|reflexivity]]|].
+  destruct (next_ev (acts s) (seq 0 (nacts s))) as [[a d]|] eqn:En; [|split; [exact I|split; [lia|reflexivity]]].
+  destruct (within lim d); [|split; [exact I|split; [lia|reflexivity]]].
+  destruct (next_ev_spec _ _ _ _ En) as [_ Hf]. apply fin_date_started in Hf.
+  assert (I1 : inv (set_now s (Z.max (now s) d))) by (apply set_now_inv; [exact I|lia]).
+  assert (I2 : inv (complete (set_now s (Z.max (now s) d)) a)) by (apply complete_inv; [exact I1|exact Hf]).
+  destruct (IH lim _ I2) as [J1 [J2 J3]]. split; [exact J1|].
+  destruct (complete_now (set_now s (Z.max (now s) d)) a) as [C1 C2].
+  cbn [set_now now nacts] in C1, C2. split; [lia|congruence].
+Qed.
+
+Lemma step_inv : forall s o s', inv s -> step s o = Ok s' -> inv s' /\ now s <= now s'.
+Proof.
+  intros s0 o s' I0 H. pose proof (log_op_inv s0 o I0) as I. unfold step in H.
+  set (s := log_op s0 o) in *. change (now s0) with (now s).
+  destruct o as [k dur|a b|a b|b|b|t|]; cbn zeta in H.
+  - destruct (_ || _); [discriminate|]. injection H as <-. split; [exact (create_inv s k dur I)|cbn; lia].
+  - destruct ((a <? nacts s)%nat && (b <? nacts s)%nat) eqn:Eb; cbn [negb] in H; [|discriminate].
+    apply andb_true_iff in Eb. destruct Eb as [Ea Eb]. apply Nat.ltb_lt in Ea, Eb.
+    destruct (Nat.eqb_spec a b) as [|Hab]; [discriminate|].
+    destruct (memb b (a_succs (acts s a))) eqn:Em; [discriminate|]. apply memb_false in Em.
+    destruct (startable (acts s b)) eqn:Es; cbn [negb] in H; [|discriminate].
+    injection H as <-. split; [|cbn; lia].
+    rewrite !(upd_neq (acts s0) a _ b) by auto. apply (edge_inv s); try assumption; try (intros; assumption).
+    + apply NoDup_rev in Em || idtac. rewrite <- (rev_involutive (_ ++ [b])). apply NoDup_rev. rewrite rev_app_distr. cbn.
+      constructor; [rewrite <- in_rev; exact Em|apply NoDup_rev; apply (i_nd s I)].
+    + intros b0 Hin Hne. apply in_app_or in Hin. destruct Hin as [Hin|[Hin|[]]]; [exact Hin|congruence].
+    + intros _. apply set_add_In. left; reflexivity.
+    + intros p Hp Hne. apply set_add_In in Hp. destruct Hp; [contradiction|assumption].
+    + intros p Hp _. apply set_add_In. right; exact Hp.
+    + intros p Hp. apply set_add_In in Hp. exact Hp.
+    + intros _. apply set_add_In. left; reflexivity.
+  - destruct ((a <? nacts s)%nat && (b <? nacts s)%nat) eqn:Eb; cbn [negb] in H; [|discriminate].
+    apply andb_true_iff in Eb. destruct Eb as [Ea Eb]. apply Nat.ltb_lt in Ea, Eb.
+    destruct (Nat.eqb_spec a b) as [|Hab]; [discriminate|].
+    destruct (memb b (a_succs (acts s a))) eqn:Em; cbn [negb] in H; [|discriminate]. apply memb_In in Em.
+    injection H as <-. split; [|cbn; lia].
+    rewrite !(upd_neq (acts s0) a _ b) by auto. destruct (del_first_NoDup b _ (i_nd s I a)) as [D1 D2].
+    apply (edge_inv s); try assumption.
+    + intros b0 Hin _. eapply del_first_In; eauto.
+    + intros Hin. contradiction.
+    + intros p Hp _. apply set_del_In in Hp. tauto.
+    + intros p Hp Hne. apply set_del_In. auto.
+    + intros p Hp. apply set_del_In in Hp. tauto.
+    + intros Hp. apply set_del_In in Hp. tauto.
+    + intros Hp. apply set_del_In in Hp. tauto.
+    + intros Hp. apply set_del_In in Hp. tauto.
+  - destruct (b <? nacts s)%nat eqn:Eb; cbn [negb] in H; [|discriminate]. apply Nat.ltb_lt in Eb.
+    destruct (startable (acts s b)) eqn:Es; cbn [negb] in H; [|discriminate].
+    destruct (match a_kind (acts s b) with KComm => a_assigned (acts s b) | _ => false end); [discriminate|].
+    assert (Hx : startable (set_assigned (acts s b) (now s)) = true) by exact Es.
+    cbn [a_kind set_assigned] in H.
+    destruct (a_kind (acts s b)).
+    + destruct (astate_eqb _ STARTING); injection H as <-; (split; [|cbn; lia]).
+      * apply (put_started_inv s b _ I Eb Es); auto.
+      * apply (with_act_inv s b _ I Eb Es); auto.
+    + injection H as <-. split; [|cbn; lia]. apply (put_started_inv s b _ I Eb Es); auto.
+    + destruct (astate_eqb _ STARTING); injection H as <-; (split; [|cbn; lia]).
+      * apply (put_started_inv s b _ I Eb Es); auto.
+      * apply (with_act_inv s b _ I Eb Es); auto.
+  - destruct (b <? nacts s)%nat eqn:Eb; cbn [negb] in H; [|discriminate]. apply Nat.ltb_lt in Eb.
+    destruct (startable (acts s b)) eqn:Es; cbn [negb] in H; [|discriminate].
+    injection H as <-. split; [|cbn; lia]. apply (put_started_inv s b _ I Eb Es); auto.
+  - destruct (t <? now s) eqn:Et; [discriminate|]. injection H as <-.
+    destruct (drain_inv (nacts s) (Some t) s I) as [J1 [J2 J3]].
+    assert (now s <= t) by lia.
+    split; [|cbn [set_now now]; exact H].
+    apply (set_now_inv (drain (nacts s) (Some t) s)); [exact J1|]. apply drain_le; exact H.
+  - injection H as <-. destruct (drain_inv (nacts s) None s I) as [J1 [J2 J3]]. split; [exact J1|exact J2].
+Qed.
+
+Lemma run_from_inv : forall ops s s' k, inv s -> run_from s ops = (Ok s', k) -> inv s' /\ now s <= now s'.
+Proof.
+  induction ops as [|o r IH]; intros s s' k I H; cbn [run_from] in H.
+  - inv H. split; [exact I|lia].
+  - destruct (step s o) as [s1| |] eqn:Es; try (inv H; fail).
+    destruct (step_inv s o s1 I Es) as [I1 L1].
+    destruct (run_from s1 r) as [x k'] eqn:Er. inv H.
+    destruct (IH s1 s' k' I1 Er) as [I2 L2]. split; [exact I2|lia].
+Qed.
+
+(** C13, first sentence: whatever the script, an activity that is started (or finished) is assigned, and every
+    predecessor declared for it (and not removed) has finished, no later than it started. *)
+Theorem start_guard : forall ops s, run ops = Ok s -> forall b,
+  a_state (acts s b) = STARTED \/ a_state (acts s b) = FINISHED ->
+  a_assigned (acts s b) = true /\
+  exists ts, a_tstart (acts s b) = Some ts /\ ts <= now s /\
+    forall p, In p (a_gpreds (acts s b)) ->
+      a_state (acts s p) = FINISHED /\ exists tf, a_tfinish (acts s p) = Some tf /\ tf <= ts.
+Proof.
+  intros ops s H b Hb. unfold run in H. destruct (run_from init_st ops) as [x k] eqn:E. cbn in H. subst x.
+  destruct (run_from_inv ops init_st s k inv_init E) as [I _]. exact (i_guard s I b Hb).
+Qed.
+
